@@ -717,7 +717,7 @@ def spec_c17(tier, seed):
         parts.append({'cause': cause, 'rounds': 1})
         parts.append({'cause': cause, 'rounds': 1, 'close_raises': True})
         parts.append({'cause': cause, 'rounds': 1, 'suspend_connect': True})
-        parts.append({'cause': cause, 'rounds': 1 if q else 2, 'frag_in': True, 'idle_max': 1100000})
+        parts.append({'cause': cause, 'rounds': 1, 'frag_in': True, 'idle_max': 1100000 if q else 2500000})   # (rounds=2 took 35 min under load)
         if cause in (0, 1):
             parts.append({'cause': cause, 'rounds': 1, 'from_on_close': True})
             parts.append({'cause': cause, 'rounds': 2, 'from_on_close': True, 'pend': [True, True, 0], 'idle_max': 1100000})
